@@ -96,6 +96,9 @@ def slotted(  # noqa: C901
         cls_dict = {**cls.__dict__}
         # Create only missing slots
         inherited_slots = set().union(*(getattr(c, "__slots__", ()) for c in cls.mro()))
+        # A base class without `__slots__` of its own already provides these two.
+        if any("__slots__" not in c.__dict__ for c in cls.mro()[1:-1]):
+            inherited_slots.update(("__dict__", "__weakref__"))
 
         field_names = {f.name: ... for f in dataclasses.fields(cls) if f.name}
         if dict:
